@@ -197,7 +197,10 @@ def run(tier):
     jobs = []
     for (n, b) in configs:
         for p in progs:
+            if p == "deep-error" and n >= 3:
+                continue      # 110 points per execution: 50 000 schedules at 3 threads; covered at 2 threads with bounds 2 and 3
             jobs.append((asan_exe, p, n, b, 400000 if tier == "thorough" else 60000, env_a, budget))
+    jobs.sort(key=lambda j: (0 if j[1] == "deep-error" else 1, -j[2] * j[3]))     # longest first
     total = Result()
     viols = {}
     schedules = transitions = 0
